@@ -52,6 +52,10 @@ CHECKS = {
    text="Beam axes: the local-to-global matrix P = [i j ixj] (orthonormal for any orthonormal pair, Cayley-parametrised) and the block matrix applied to global dofs (must be blockdiag(P^T)) are decided symbolically from the extracted source. Continuum elements: the real operators run on exact values give Q K_e Q^T (K_e for scalar problems) under rational rigid motions and reflections. Whole problems are run natively as bounded contracts: cantilevers at generic inclinations (EB/Timoshenko, 2-D/3-D) respond identically in their own axes; elastic/thermal patches rotated, translated and mirrored (isotropic and anisotropic with rotated axes) give the transformed solution and the same energy.",
    note="B/X tiers bounded to small patches, one motion each, one cantilever; global statement relies on C03/C04 contracts; hyperelastic objectivity and one-step dynamics not covered here.",
    technique="contract-based verification: symbolic execution of extracted axis code (proved) + exact execution of real operators under rational motions (bounded) + run-time contracts on native solves"),
+ "C13": dict(level="other", design="DESIGN.md 3/C13",
+   text="Assemble index pairing (values with rows_e/columns_e, resp. assembly_e and column 0; matrix shapes) is decided from the extracted source on a recording receiver, against the index contracts proved in C03. Element integration is the real form machinery: exact arithmetic for three basic forms, run-time contracts for a grammar of ten bilinear and two linear forms (scalar and vector fields, position-dependent coefficient, trace/transpose variants) per element type against the real built-in operators with the same quadrature; Assemble vs scatter-add; weak-form simulations vs the dedicated thermal/elastic simulations in static, parabolic and hyperbolic use.",
+   note="Form grammar bounded to the listed forms; 2-element patches / star patches; floats with 1e-12 (1e-10 for solves). Built-in operators are the oracle (their contracts are C01/C02).",
+   technique="contract-based verification: extracted index code against proved callee contracts + exact / run-time contracts of the real forms against the real operators"),
 }
 NOT_APPLICABLE = {
 }
